@@ -13,6 +13,9 @@ def make(ns, *, cols, textcols, oracle, gen_fn, solve_kw=None, counts=(250, 5000
             if mismatch_filter is not None and mismatch_filter(ctx, desc, obs, m):
                 continue
             ctx.corr(desc, "table-assembly: %s" % m["col"], m)
+        sm = solved.shape_mismatch(desc, obs, model, kw)
+        if sm is not None:
+            ctx.corr(desc, "table-shape: columns shown", sm)
         if sweeps:
             solved.sweep_residuals(ctx, desc, obs, model, kw.get("vtol", 1e-6), kw.get("itol", 1e-6))
         oracle(ctx, desc, obs, model, kw)
